@@ -15,7 +15,13 @@ func Harness_C10_client() {
 	gate := make(chan struct{})
 	cbRan := 0
 	cbDone := false
-	cbMode := nondetChoice("callback-mode", 3)
+	cbMode := nondetChoice("callback-mode", 4)
+	var cbErr *Error
+	if cbMode == 3 {
+		// the callback handler fails with an *Error carrying whatever bytes it
+		// likes as data (valid JSON or not): its reply is still one whole message
+		cbErr = &Error{Code: Code(nondetInt32("cb-code")), Message: "callback failed", Data: nondetToken("cb-errdata")}
+	}
 	opts := &ClientOptions{
 		OnCallback: func(ctx context.Context, req *Request) (any, error) {
 			cbRan++
@@ -29,6 +35,9 @@ func Harness_C10_client() {
 				<-gate // ignores its context
 			}
 			cbDone = true
+			if cbErr != nil {
+				return nil, cbErr
+			}
 			return "cb-result", nil
 		},
 		OnNotify: func(req *Request) {},
